@@ -533,6 +533,8 @@ def versioned_task(task, ybin, root):
 
 def model_task(task, ybin, root):
     seed, i, quick = task["seed"], task["i"], task["tier"] == "quick"
+    if i % 16 == 7:
+        return watch_task(task, ybin, root)
     if i % 4 == 3:
         return versioned_task(task, ybin, root)
     rng = M.derive(seed, "c15", i)
@@ -576,6 +578,13 @@ def model_task(task, ybin, root):
 
 
 def replay_doc(d, ybin, root):
+    if d.get("kind") == "watch":
+        import importlib
+        W = importlib.import_module("checks.C20")
+        from toolworld import tw
+        viol, st = W.execute(tw.Sim(os.environ.get("VERIF_REPO", "/repo")), d)
+        hit = viol is not None and viol.get("class") == "not_converged"
+        return hit, str(viol)
     pkg = sw.unpack_pkg(d["pkg"])
     want_cpp = d["lang"] == "cpp"
     model = P.PyModel(pkg, ybin, root, want_cpp=want_cpp or bool(pkg.versions), cpp_opts=C.CPP_OPTS)
@@ -598,6 +607,35 @@ def replay_doc(d, ybin, root):
         model.close()
 
 
+def watch_task(task, ybin, root):
+    """Readers generated by a long-lived `yardl generate --watch` process: after the model files were edited, the protocol
+    classes on disk (which carry the schema a reader compares stream headers with) must be those a one-shot generation of the
+    final model writes - a reader that still carries an earlier model's schema accepts that model's streams and decodes them
+    with the new serializers.  Runs C20's workloads in the simulated OS; only differences in files that define protocol
+    readers / writers are reported here."""
+    import importlib
+    W = importlib.import_module("checks.C20")
+    from toolworld import tw
+    seed, i = task["seed"], task["i"]
+    sim = tw.Sim(os.environ.get("VERIF_REPO", "/repo"))
+    stats, viols, cases = {"watch_sessions": 0}, [], []
+    for j in range(12 if task["tier"] == "quick" else 40):
+        doc_ = W.make_case(M.derive(seed, "c15watch", i).next() % (1 << 40), i * 1000 + j)
+        if doc_["case"].get("ends_invalid"):
+            continue
+        viol, st = W.execute(sim, doc_)
+        stats["watch_sessions"] += 1
+        stats["runs"] = stats.get("runs", 0) + st.get("runs", 1)
+        if viol is not None and viol.get("class") == "not_converged":
+            hit = [q for q in st.get("diff_paths", []) if any(x in q.rsplit("/", 1)[-1] for x in ("protocols.", "ReaderBase", "WriterBase", "Reader.m", "Writer.m", "model.json"))]
+            if hit:
+                viols.append(({"class": "reader_generated_in_watch_mode_differs_from_one_shot", "lang": "any", "format": "any", "fault": "model_edited_while_watching"},
+                              dict(doc_, kind="watch", first=hit[0])))
+                break
+        cases.append((["c15w", i, j], True))
+    return {"stats": stats, "violations": viols, "cases": cases, "samples": []}
+
+
 def main():
     runner.run(PROP, "fault_enumeration", "checks.C15", quick_models=32, max_reject=0.4, thorough_budget=1500,
                rule=("one case = one protocol of a generated model B x the enumerated fault set: the stream of the near-identical protocol A (B differs from A by exactly one "
@@ -611,7 +649,7 @@ def main():
                assumptions=["a corruption after which the header is still the reader's own header by the documented format (NDJSON line parsing to the same JSON) is benign and skipped"],
                replay_fn=replay_doc, quick_budget=140,
                fault_keys=("misdelivery_near_identical", "misdelivery_unrelated", "misdelivery_sibling_protocol", "flip_magic", "flip_version", "flip_schema_length", "subst_magic", "subst_version",
-                           "subst_schema_length", "flip_schema_text", "schema_prefix", "degenerate_schema", "cpp_degenerate_schema", "schema_extended", "schema_token_replaced", "flip_ndjson_header", "ndjson_version", "ndjson_header_structure",
+                           "subst_schema_length", "flip_schema_text", "watch_sessions", "schema_prefix", "degenerate_schema", "cpp_degenerate_schema", "schema_extended", "schema_token_replaced", "flip_ndjson_header", "ndjson_version", "ndjson_header_structure",
                            "cpp_misdelivery_near_previous_version", "cpp_flip_previous_schema_text", "python_previous_version"))
 
 
